@@ -1,6 +1,7 @@
 import Goyang.Lemmas.LoadOrderReg
 import Goyang.Lemmas.Registry
 import Goyang.Lemmas.IdentityLoad
+import Goyang.Model.Pipeline
 /-
 Load-order independence (C05), part 9: loading the same modules in two orders gives two
 registries that hold the same modules under renamed sequence numbers (`RegRel`).  Built on the
@@ -451,5 +452,72 @@ theorem regRel_of_perm {loads₁ loads₂ : List Stmt} (hp : loads₁.Perm loads
     rw [hx] at hm
     cases hm
     exact hxs
+
+/-! ### `Modules.Parse` text by text (`loadFiles`) -/
+
+theorem loadFrom_append (r : Registry) : ∀ (a b : List Stmt),
+    (r.loadFrom (a ++ b)).1 = ((r.loadFrom a).1.loadFrom b).1 := by
+  intro a
+  induction a generalizing r with
+  | nil => intro b; rfl
+  | cons s rest ih =>
+    intro b
+    simp only [List.cons_append, Registry.loadFrom]
+    cases r.add s with
+    | ok r' => exact ih r' b
+    | error e => exact ih r b
+
+/-- When nothing is rejected, the atomic load of a text is the load of its statements. -/
+theorem foldlM_add_ok : ∀ (ss : List Stmt) {r : Registry} {L : List Stmt}, LInv r L →
+    (∀ t ∈ L, NoAt t.arg) → (∀ t ∈ ss, NoAt t.arg) → ((L ++ ss).map hdr).Nodup →
+    ss.foldlM (fun r s => r.add s) r = .ok (r.loadFrom ss).1
+  | [], r, L, _, _, _, _ => rfl
+  | s :: rest, r, L, h, hL, hss, hnd => by
+    have hs : NoAt s.arg := hss s (by simp)
+    have hnew : hdr s ∉ L.map hdr := by
+      rw [List.map_append, List.map_cons] at hnd
+      intro hm
+      exact (List.nodup_append.mp hnd).2.2 _ hm _ (List.mem_cons_self ..) rfl
+    obtain ⟨r', hadd, h'⟩ := linv_add h hs hL hnew
+    have hL' : ∀ t ∈ L ++ [s], NoAt t.arg := by
+      intro t ht
+      rcases List.mem_append.mp ht with ht | ht
+      · exact hL t ht
+      · simp only [List.mem_singleton] at ht; subst ht; exact hs
+    have ih := foldlM_add_ok rest h' hL' (fun t ht => hss t (by simp [ht])) (by simpa using hnd)
+    simp only [List.foldlM_cons, Registry.loadFrom, hadd]
+    exact ih
+
+theorem loadFiles_eq_loadAll (files : List SrcFile) (hn : ∀ t ∈ files.flatMap (·.stmts), NoAt t.arg)
+    (hnd : ((files.flatMap (·.stmts)).map hdr).Nodup) :
+    loadFiles files = (Registry.loadAll (files.flatMap (·.stmts))).1 := by
+  unfold loadFiles Registry.loadAll
+  have key : ∀ (fs : List SrcFile) (r : Registry) (L : List Stmt), LInv r L → (∀ t ∈ L, NoAt t.arg) →
+      (∀ t ∈ fs.flatMap (·.stmts), NoAt t.arg) → ((L ++ fs.flatMap (·.stmts)).map hdr).Nodup →
+      fs.foldl loadFile r = (r.loadFrom (fs.flatMap (·.stmts))).1 := by
+    intro fs
+    induction fs with
+    | nil => intro r L _ _ _ _; rfl
+    | cons f rest ih =>
+      intro r L hl hL hss hnd
+      simp only [List.flatMap_cons] at hss hnd ⊢
+      have hf : ∀ t ∈ f.stmts, NoAt t.arg := fun t ht => hss t (List.mem_append_left _ ht)
+      have hnd1 : ((L ++ f.stmts).map hdr).Nodup := by
+        rw [← List.append_assoc, List.map_append] at hnd
+        exact (List.nodup_append.mp hnd).1
+      have hok := foldlM_add_ok f.stmts hl hL hf hnd1
+      have hl' := linv_loadFrom f.stmts hl hL hf hnd1
+      have hL' : ∀ t ∈ L ++ f.stmts, NoAt t.arg := by
+        intro t ht
+        rcases List.mem_append.mp ht with ht | ht
+        · exact hL t ht
+        · exact hf t ht
+      rw [List.foldl_cons, loadFrom_append]
+      have : loadFile r f = (r.loadFrom f.stmts).1 := by
+        unfold loadFile
+        rw [hok]
+      rw [this]
+      exact ih _ _ hl' hL' (fun t ht => hss t (List.mem_append_right _ ht)) (by rw [List.append_assoc]; exact hnd)
+  exact key files {} [] linv_empty (by simp) hn (by simpa using hnd)
 
 end Goyang.Lemmas.LoadOrder
